@@ -273,7 +273,7 @@ def replay_file(path):
 def run(tier, seed):
     t0 = time.time()
     exe = core.build("rel")
-    n = 400 if tier == "quick" else 6000
+    n = 320 if tier == "quick" else 6000
     stats, fails = core.hyp_search(strategy, make_eval(exe), n, seed)
     oc = core.conclude(PID, fails, replay_case)
     core.write_evidence(PID, tier, seed, "exploration", stats, RULE, time.time() - t0, violations=len(oc.violations),
